@@ -318,3 +318,16 @@ pub struct CacheStats {
     pub l1_size_bytes: usize,
     pub l2_size_bytes: usize,
 }
+
+/// Verification hooks: public entry point to the private result
+/// de-duplication routine that `query_for_tenant` applies while a shard split
+/// is active (compiled only with the `verif_hooks` feature).
+#[cfg(feature = "verif_hooks")]
+pub mod verif {
+    /// `dedup::dedup_batches` as used by `QueryNode::query_for_tenant`.
+    pub fn dedup_batches(
+        batches: Vec<arrow_array::RecordBatch>,
+    ) -> crate::Result<Vec<arrow_array::RecordBatch>> {
+        super::dedup::dedup_batches(batches)
+    }
+}
